@@ -43,6 +43,14 @@ THEOREMS = {
                               "after one reveal_plates 0 0 1 1 for the same experiments; treatment ids likewise; mappings differ; sizes shrink (vm_compute witness)",
     "C03_mask_refuted": "the same with a single mask_screen",
     "C03_unmask_refuted": "the same with a single unmask_screen",
+    "C03_source_carries_mappings": "the three Screen(...) call sites of reveal_plates / mask_screen / unmask_screen, as read from the source, pass both mappings",
+    "C03_model_is_source_step": "each lifecycle operation performed by the TRANSLATED source function (Generated/SrcReveal.v) equals the model's step "
+                                "under the repaired variant, for every screen and operation",
+    "C03_model_is_source_lifecycle": "split + history run with the translated functions = the model's lifecycle (carry_mappings true)",
+    "C03_source_variant_unique": "the model equals the translated source on all inputs for exactly one variant, the one named by the call-site "
+                                 "constants SRC_*_carries_mappings (the constants are consistent with, and implied by, the translation)",
+    "C03_ids_frozen_of_source": "ids_frozen stated of the translated functions: every screen derived by any history of them from either half "
+                                "of any split carries the parent's mappings and ids",
 }
 ASSUMPTIONS = [
     "the hold-out selection vector is an oracle input recorded from the real function's rng.choice calls (checked against the "
@@ -59,7 +67,12 @@ EXPLANATION = ("Model: Model/Reveal.v (reveal_plates, mask_screen, unmask_screen
                "before the repair) ids_frozen is REFUTED in Coq and the predicate reports the renumbering on the real code; the positive "
                "theorems hold for the repaired variant (1 1 1).  predict_stable is a corollary (embeddings are indexed by these ids, "
                "sparse_combo.py:675-713; C09 proves predictions row-wise) and is not stated separately.  train_model.main sizes the embeddings by "
-               "ExperimentSpace.from_screen(loaded screen), which is what space_n_samples / space_n_treatments of every stage are compared against.")
+               "ExperimentSpace.from_screen(loaded screen), which is what space_n_samples / space_n_treatments of every stage are compared against.  "
+               "SOURCE LINK: that reveal_plates / mask_screen / unmask_screen pass treatment_mapping=screen.treatment_mapping and "
+               "sample_mapping=screen.sample_mapping to Screen(...) is derived from the whole-function translations of C12 "
+               "(harness/py2gal.py, Generated/SrcReveal.v; Screen(...) = the model's constructor on the keyword arguments the call site "
+               "passes): C03_model_is_source_step / _lifecycle, C03_source_variant_unique, C03_ids_frozen_of_source.  Trusted: the translator "
+               "and the primitives listed in C12's explanation.")
 
 _CAUSE = {"reveal": "reveal", "cli_reveal": "reveal", "mask": "mask", "unmask": "unmask", "saveload": "saveload", "meta_cli": "saveload",
           "setobs": "setobs"}
